@@ -1,7 +1,9 @@
 package main
 
 import (
+	"bytes"
 	"fmt"
+	"os"
 
 	"github.com/openacid/low/bitword"
 )
@@ -44,6 +46,27 @@ func init() {
 		}
 		return Strs(c08bw(a).ToStrs(bss))
 	}
+	// large-input variants (judged by the word-by-word spec, linear time on the Coq side)
+	Exec["bitword.Get/large"] = func(a []V) string {
+		w := c08bw(a)
+		s, i := a[1].Str(), a[2].Int()
+		return L(Int(int(w.Get(s, i))), Int(int(w.FromStr(s)[i])))
+	}
+	Exec["bitword.FirstDiff/large"] = Exec["bitword.FirstDiff"]
+	Exec["bitword.FromStr/large"] = Exec["bitword.FromStr"]
+	Exec["bitword.ToStr/large"] = Exec["bitword.ToStr"]
+	// widened ops (Spec/BitwordSpecWiden.v)
+	Exec["bitword.FromStr/cmp"] = func(a []V) string {
+		w := c08bw(a)
+		return Int(bytes.Compare(w.FromStr(a[1].Str()), w.FromStr(a[2].Str())))
+	}
+	Exec["bitword.FromStr/ToStr"] = func(a []V) string {
+		w := c08bw(a)
+		return Bytes(w.FromStr(w.ToStr(a[1].Bytes())))
+	}
+	Exec["bitword.Get/any"] = Exec["bitword.Get"]
+	Exec["bitword.FirstDiff/any"] = Exec["bitword.FirstDiff"]
+	Exec["bitword.ToStr/any"] = Exec["bitword.ToStr"]
 	Register("C08", genC08)
 }
 
@@ -138,6 +161,12 @@ func genC08(g *Gen) {
 			key = fmt.Sprintf("to/n%d/partial%d/bytes%s/nz%v", n, len(ws)%m, c08LenClass((len(ws)+m-1)/m), nz)
 		}
 		g.Do("bitword.ToStr", L(Int(n), Bytes(ws)), key)
+		if len(ws) <= 4096 {
+			if key != "" {
+				key = "rt2" + key[2:]
+			}
+			g.Do("bitword.FromStr/ToStr", L(Int(n), Bytes(ws)), key)
+		}
 	}
 	// naive first difference, only for the shape key
 	firstDiff := func(n int, a, b []byte, from, end int, bucket string) {
@@ -404,4 +433,327 @@ func genC08(g *Gen) {
 		}
 		firstDiff(n, a, b, from, end, "rand-firstdiff")
 	}
+
+	c08Large(g, get, fromStr, toStr, firstDiff)
+	c08Lists(g)
+	c08Wide(g)
+}
+
+// c08Large: inputs whose byte / bit / word offsets cross 2^8 and 2^16 (narrowing conversions of
+// an index or a length inside the code only show up there).  Few cases, both tiers.
+//
+//	mid:   strings of 31..33 and 255..258 bytes through the ordinary ops (all Get indexes near the
+//	       boundaries), word lists of ~256 and ~2048 words
+//	S1:    ~8200..8300 bytes  (bit offset 2^16; 2^16 one-bit words)
+//	S2:    ~65.6..66.2 KB     (byte offset 2^16 = bit offset 2^19; 2^16 words for every width)
+func c08Large(g *Gen, get func(int, []byte, int, string), fromStr func(int, []byte, string),
+	toStr func(int, []byte, string), firstDiff func(int, []byte, []byte, int, int, string)) {
+
+	randWords := func(n, cnt int) []byte {
+		ws := make([]byte, cnt)
+		for i := range ws {
+			ws[i] = byte(g.R.Intn(1 << uint(n)))
+		}
+		return ws
+	}
+	// word indexes around a bit offset B and around word index W, inside [0, words)
+	probes := func(n, words int, bitOffs, wordIdx []int, ds []int) []int {
+		seen := map[int]bool{}
+		var out []int
+		add := func(i int) {
+			if i >= 0 && i < words && !seen[i] {
+				seen[i] = true
+				out = append(out, i)
+			}
+		}
+		for _, B := range bitOffs {
+			for _, d := range ds {
+				add(B/n + d)
+			}
+		}
+		for _, W := range wordIdx {
+			for _, d := range ds {
+				add(W + d)
+			}
+		}
+		add(words - 1)
+		return out
+	}
+
+	// ---- mid-size strings through the ordinary ops
+	for _, n := range c08Widths {
+		m := 8 / n
+		for _, ln := range []int{31, 32, 33, 255, 256, 257, 258} {
+			s := g.R.Bytes(ln, nil)
+			fromStr(n, s, "mid-fromstr")
+			for _, i := range probes(n, ln*m, []int{256, 2048}, []int{256}, []int{-2, -1, 0, 1}) {
+				get(n, s, i, "mid-get")
+			}
+			// a copy that differs in one bit just beyond a boundary
+			for _, B := range []int{256, 2048} {
+				if B+n >= ln*8 {
+					continue
+				}
+				b := append([]byte{}, s...)
+				p := B + g.R.Intn(2*n)
+				b[p/8] ^= 0x80 >> uint(p%8)
+				firstDiff(n, s, b, B/n-2, -1, "mid-firstdiff")
+				firstDiff(n, s, b, p/n+1, -1, "mid-firstdiff")
+			}
+		}
+		for _, cnt := range []int{255, 256, 257, 2047, 2048, 2049, 8 * 256, 8*256 + 1} {
+			toStr(n, randWords(n, cnt), "mid-tostr")
+		}
+	}
+
+	// ---- large strings
+	type big struct {
+		name string
+		s    []byte
+	}
+	bigs := []big{
+		{"S1", g.R.Bytes(g.R.Range(8200, 8300), nil)},
+		{"S2", g.R.Bytes(65536+g.R.Range(100, 600), nil)},
+	}
+	if g.Thorough {
+		bigs = append(bigs, big{"S1", g.R.Bytes(g.R.Range(8193, 8199), nil)},
+			big{"S2", g.R.Bytes(65536+g.R.Range(1, 8), nil)})
+	}
+	for _, bg := range bigs {
+		s := bg.s
+		for _, n := range c08Widths {
+			m := 8 / n
+			words := len(s) * m
+			// quick tier: the 66 KB string only for the widths 4 and 8 (FromStr), 8 (run to the end)
+			isS2 := bg.name == "S2"
+			if !isS2 || g.Thorough || n >= 4 {
+				g.Stat("large-fromstr-" + bg.name)
+				g.Do("bitword.FromStr/large", L(Int(n), Bytes(s)), fmt.Sprintf("large/from/n%d/%s", n, bg.name))
+			}
+
+			bitOffs := []int{65536}
+			wordIdx := []int{65536}
+			ds := []int{-1, 0, 1}
+			if bg.name == "S2" {
+				bitOffs = []int{524288} // byte index 2^16
+				ds = []int{-1, 0}
+				if g.Thorough {
+					bitOffs = []int{65536, 524288}
+					ds = []int{-2, -1, 0, 1, 2}
+				}
+			} else {
+				ds = []int{-2, -1, 0, 1, m}
+				bitOffs = []int{2048, 65536}
+			}
+			for _, i := range probes(n, words, bitOffs, wordIdx, ds) {
+				g.Stat("large-get-" + bg.name)
+				key := fmt.Sprintf("large/get/n%d/%s/j%d/bit>=2^16:%v/word>=2^16:%v/byte>=2^16:%v",
+					n, bg.name, i%m, i*n >= 65536, i >= 65536, i/m >= 65536)
+				g.Do("bitword.Get/large", L(Int(n), Bytes(s), Int(i)), key)
+			}
+
+			// FirstDiff across a boundary: b differs from s in one bit a few words after it
+			fdAt := func(wb int, tag string) {
+				if wb+4 >= words || wb < 3 {
+					return
+				}
+				b := append([]byte{}, s...)
+				p := (wb+g.R.Intn(3))*n + g.R.Intn(n)
+				b[p/8] ^= 0x80 >> uint(p%8)
+				from := wb - 1 - g.R.Intn(2)
+				// (the window list of the spec costs time quadratic in its length: end = -1 or beyond the
+				// strings only when fewer than ~1500 words remain)
+				end := g.R.Pick(wb+6, wb+40)
+				if words-from < 1500 {
+					end = g.R.Pick(-1, wb+6, words+5)
+				}
+				g.Stat("large-firstdiff-" + bg.name)
+				g.Do("bitword.FirstDiff/large", L(Int(n), Bytes(s), Bytes(b), Int(from), Int(end)),
+					fmt.Sprintf("large/fd/n%d/%s/%s/diff", n, bg.name, tag))
+			}
+			if bg.name == "S1" {
+				fdAt(2048/n, "bit2^11")
+				fdAt(65536/n, "bit2^16")
+				fdAt(65536, "word2^16")
+			} else if g.Thorough {
+				fdAt(524288/n, "bit2^19")
+				if n > 1 {
+					fdAt(65536, "word2^16")
+				}
+			} else if n == 1 || n == 8 {
+				fdAt(524288/n, "bit2^19")
+			} else {
+				fdAt(65536, "word2^16")
+			}
+			// no difference up to the end: the result is lim = the word count (> 2^16 for S2, every width)
+			if !isS2 || g.Thorough || n == 8 {
+				b := append([]byte{}, s...)
+				end := g.R.Pick(-1, words, words+3)
+				tag := "equal"
+				switch g.R.Intn(3) {
+				case 0: // b shorter by one byte: lim = words(b)
+					b = b[:len(b)-1]
+					tag = "b-shorter"
+				case 1: // last word differs
+					b[len(b)-1] ^= 1
+					tag = "last-word"
+				}
+				lim := len(b) * m
+				g.Stat("large-firstdiff-" + bg.name)
+				g.Do("bitword.FirstDiff/large", L(Int(n), Bytes(s), Bytes(b), Int(lim-2-g.R.Intn(2)), Int(end)),
+					fmt.Sprintf("large/fd/n%d/%s/%s", n, bg.name, tag))
+			}
+		}
+	}
+
+	// ---- ToStr on long word lists (the model indexes the list per word: quadratic on the Coq side,
+	// so 2^16 words only once, in the thorough tier)
+	for _, n := range c08Widths {
+		if !g.Thorough && (n == 2 || n == 4) {
+			continue
+		}
+		g.Stat("large-tostr")
+		cnt := 8192 + g.R.Range(1, 9)
+		g.Do("bitword.ToStr/large", L(Int(n), Bytes(randWords(n, cnt))), fmt.Sprintf("large/to/n%d/8k/partial%d", n, cnt%(8/n)))
+	}
+	if g.Thorough {
+		g.Stat("large-tostr")
+		g.Do("bitword.ToStr/large", L(Int(8), Bytes(randWords(8, 65536+g.R.Range(1, 5)))), "large/to/n8/64k")
+	}
+}
+
+// c08Lists: FromStrs / ToStrs on ALL lists of length <= 3 over four elements (equal neighbours,
+// empty elements, order); c08Wide: the widened ops.
+func c08Lists(g *Gen) {
+	for _, n := range c08Widths {
+		m := 8 / n
+		mx := byte(1<<uint(n) - 1)
+		strs := []string{Bytes(nil), Bytes([]byte{'a'}), Bytes([]byte{0xff}), Bytes([]byte{'a', 0x80})}
+		part := []byte{1}
+		if m > 1 {
+			part = make([]byte, m+1) // one byte and a partial one
+			part[0], part[m] = mx, 1
+		}
+		wls := []string{Bytes(nil), Bytes([]byte{1}), Bytes([]byte{mx}), Bytes(part)}
+		var rec func(pre []int, depth int)
+		rec = func(pre []int, depth int) {
+			ss := make([]string, len(pre))
+			ws := make([]string, len(pre))
+			dup := false
+			for i, k := range pre {
+				ss[i], ws[i] = strs[k], wls[k]
+				if i > 0 && pre[i-1] == k {
+					dup = true
+				}
+			}
+			key := ""
+			if len(pre) > 0 {
+				key = fmt.Sprintf("strs/n%d/cnt%d/dup%v", n, len(pre), dup)
+			}
+			g.Stat("exh-strs")
+			g.Do("bitword.FromStrs", L(Int(n), L(ss...)), key)
+			g.Do("bitword.ToStrs", L(Int(n), L(ws...)), key)
+			if depth == 3 {
+				return
+			}
+			for k := 0; k < 4; k++ {
+				rec(append(append([]int{}, pre...), k), depth+1)
+			}
+		}
+		rec(nil, 0)
+	}
+	g.Exhaust = append(g.Exhaust, "FromStrs / ToStrs: all lists of length 0..3 over four strings / four word lists (empty, one word, all-ones, partial last byte) x 4 widths")
+}
+
+func c08Wide(g *Gen) {
+	// FromStr keeps the order: all pairs of strings of length <= 2 over the 7-byte alphabet
+	// (thorough; quick: length <= 1 plus a sample) and random pairs sharing a prefix
+	cmp := func(n int, a, b []byte, bucket string) {
+		g.Stat(bucket)
+		key := ""
+		if len(a) > 0 && len(b) > 0 {
+			c := bytes.Compare(a, b)
+			rel := "eq"
+			if len(a) < len(b) {
+				rel = "shorter"
+			} else if len(a) > len(b) {
+				rel = "longer"
+			}
+			key = fmt.Sprintf("cmp/n%d/%d/%s/high%v%v", n, c, rel, c08HasHigh(a), c08HasHigh(b))
+		}
+		g.Do("bitword.FromStr/cmp", L(Int(n), Bytes(a), Bytes(b)), key)
+	}
+	strs1 := c08AllStrings(c08Alpha, 1)
+	strs2 := c08AllStrings(c08Alpha, 2)
+	for _, n := range c08Widths {
+		for _, a := range strs1 {
+			for _, b := range strs1 {
+				cmp(n, a, b, "exh-cmp")
+			}
+		}
+		k := 0
+		for _, a := range strs2 {
+			for _, b := range strs2 {
+				k++
+				if g.Thorough || k%8 == 0 {
+					cmp(n, a, b, "exh-cmp2")
+				}
+			}
+		}
+	}
+	g.Exhaust = append(g.Exhaust, "FromStr/cmp: all pairs of strings of length 0..1 over the 7-byte alphabet x 4 widths")
+	for q := 0; q < g.N(600, 15000); q++ {
+		n := c08Widths[g.R.Intn(4)]
+		al := alphabets[g.R.Intn(len(alphabets))]
+		pre := g.R.Bytes(g.R.Range(0, 10), al)
+		a := append(append([]byte{}, pre...), g.R.Bytes(g.R.Range(0, 4), al)...)
+		b := append(append([]byte{}, pre...), g.R.Bytes(g.R.Range(0, 4), al)...)
+		if g.R.Intn(4) == 0 && len(a) > 0 { // one flipped bit
+			b = append([]byte{}, a...)
+			p := g.R.Intn(len(b) * 8)
+			b[p/8] ^= 0x80 >> uint(p%8)
+		}
+		cmp(n, a, b, "rand-cmp")
+	}
+
+	if os.Getenv("VERIF_C08_WIDE") != "1" {
+		return
+	}
+	// ---- outside the domain of the C08 statement (only on request)
+	for _, n := range c08Widths {
+		m := 8 / n
+		for _, s := range c08AllStrings([]byte{0x00, 0xa5, 0xff}, 2) {
+			words := len(s) * m
+			for i := -m - 2; i <= words+m+1; i++ {
+				g.Stat("wide-get")
+				g.Do("bitword.Get/any", L(Int(n), Bytes(s), Int(i)), fmt.Sprintf("wide/get/n%d/neg%v/in%v", n, i < 0, i >= 0 && i < words))
+			}
+			for _, t := range c08AllStrings([]byte{0x00, 0xa5}, 1) {
+				for from := -3; from <= words+1; from++ {
+					for end := -3; end <= words+2; end++ {
+						g.Stat("wide-firstdiff")
+						g.Do("bitword.FirstDiff/any", L(Int(n), Bytes(s), Bytes(t), Int(from), Int(end)),
+							fmt.Sprintf("wide/fd/n%d/fromneg%v/end%d", n, from < 0, c08sgn(end+1)))
+					}
+				}
+			}
+		}
+	}
+	for q := 0; q < g.N(1500, 20000); q++ {
+		n := c08Widths[g.R.Intn(4)]
+		m := 8 / n
+		ws := g.R.Bytes(g.R.Range(0, 3*m+1), alphabets[g.R.Intn(len(alphabets))])
+		g.Stat("wide-tostr")
+		g.Do("bitword.ToStr/any", L(Int(n), Bytes(ws)), fmt.Sprintf("wide/to/n%d/partial%d", n, len(ws)%m))
+	}
+}
+
+func c08sgn(x int) int {
+	switch {
+	case x < 0:
+		return -1
+	case x > 0:
+		return 1
+	}
+	return 0
 }
